@@ -262,10 +262,16 @@ class Expression:
             elif current_token in self.unary_operators:
                 stack.append(current_token)
             elif current_token == "sizeof":
-                if len(tmp_expression) < i + 3 or (tmp_expression[i + 1] != "(" or tmp_expression[i + 3] != ")"):
+                # sizeof ( <type name> ), where the name of the type may consist of several words
+                end = tmp_expression.index(")", i) if ")" in tmp_expression[i:] else -1
+                if (
+                    end < i + 3
+                    or tmp_expression[i + 1] != "("
+                    or not all(token.isidentifier() for token in tmp_expression[i + 2 : end])
+                ):
                     raise ExpressionParserError("Invalid sizeof operation")
-                queue.append(len(self.cstruct.resolve(tmp_expression[i + 2])))
-                i += 3
+                queue.append(len(self.cstruct.resolve(" ".join(tmp_expression[i + 2 : end]))))
+                i = end
             elif current_token in operators:
                 while (
                     len(stack) != 0 and stack[-1] != "(" and (self.precedence(stack[-1], current_token))
